@@ -26,12 +26,14 @@ API_SURFACE = {
   "LruCacheMap::put(k, get(j)) with j != k: value argument is a reference into the cache (token PG)",
   "exists()/size() of both caches through a const reference",
   "argument aliasing, caches: every LruCacheMap member taking a key by const reference -- put (key; key and value), touch, touch_if_exists, erase, erase_if_exists, get, get_touch, exists -- is also called with the key argument a reference INTO the cache (token @OP,j: the reference get(j) returns; Key and Value of one type: int/int, std::string/std::string, and the int inside a stored Tracked), with generated values often equal to the entry's own key so that the member destroys the entry its argument lives in; model side = the plain operation with the value read at call time",
+  "SplayTree::erase(const Node*) with a node pointer kept from an earlier find() (tokens H,k / EH): the node is then an inner node or a leaf, not the root, possibly one of several duplicates",
+  "implicit move constructor + move assignment of LruCacheSet / LruCacheMap (token MV: content moved into a temporary and back; stored list iterators must survive)",
   "argument aliasing, SplayTree: insert, erase(const Key&), exists, find called with a reference to the key of the node find() returned (token @OP,j), all variants incl. the free functions",
   "regimes: key universes of 24-48 keys (deep splay trees, long left/right assemblies; unordered_map index growing through rehashes), exhaustive blocks run on a seed-chosen variant"],
  "left_out": [
   "LruCacheMap::put(k, get(k)) (value aliases the entry put() erases first) is generated (repaired in /repo by fixes/C17/04)",
   "move-only Value / Key types: put() takes const references and copies into the list, pop() returns by copy -- such instantiations do not compile, nothing to test",
-  "copy / move construction and assignment of the containers: compiler-generated; a copied LruCache holds iterators into the source list and a copied SplayTree shares nodes (not part of the property; the classes document no copy semantics)",
+  "implicit COPY construction / assignment of LruCacheSet / LruCacheMap (copy shares list nodes with the source through the copied iterators: wrong answers, use-after-free) and implicit copy / move / std::swap of SplayTree (shallow root_ copy: double free): misbehave on /repo HEAD, reported as findings in docs/audit/C17.md; not generated (the property text lists no copy operation) -- to be added to the alphabet once the maintainers decide between deleting and implementing them",
   "protected typedefs List/ListIterator/Map of the caches (only reachable by deriving), SplayTree::Node public struct fields (read only through find())",
   "argument aliasing for LruCacheSet: the class hands out no reference, iterator or preview accessor into its storage (pop() returns by value, the typedefs are protected, the members private), so no aliasing call can be written against it; pop()/size()/clear() take no arguments",
   "pop() on an empty cache (assert), traversal functors that modify the tree"]
@@ -85,7 +87,8 @@ def gen_lru(rng, ismap, nops):
         else: w = [("P", 25), ("T", 10), ("TI", 6), ("G", 8), ("GT", 8), ("E", 8), ("EI", 6), ("X", 6), ("S", 5), ("O", 10), ("C", 2)]
         name = pick(rng, w)
         if not ismap and name in ("G", "GT"): continue
-        if name in ("S", "C"):
+        if rng.below(100) < 3: name = "MV"       # move the cache into a temporary and back (implicit move members)
+        if name in ("S", "C", "MV"):
             ops.append(name)
             if name == "C": l = []; vals.clear()
             continue
@@ -147,6 +150,9 @@ def gen_splay(rng, dup, nops):
         elif mode == 4: w = [("I", 35), ("E", 35), ("X", 8), ("F", 15), ("C", 2), ("T", 5)]
         else: w = [("I", 35), ("E", 20), ("X", 14), ("F", 20), ("C", 3), ("T", 8)]
         name = pick(rng, w)
+        r = rng.below(100)
+        if r < 6: ops.append("H,%d" % rng.below(nk)); continue      # keep the node pointer find() returns ...
+        if r < 12: ops.append("EH"); continue                       # ... and erase(const Node*) it later (non-root node)
         if name in ("C", "T"): ops.append(name)
         else:
             if name == "E" and rng.below(100) < 35: name = "EN"      # erase(const Node*) on the node returned by find()
@@ -162,7 +168,7 @@ if ck.replay:
     cases = [json.load(open(ck.replay))["case"]]
     ncorpus = 0
 else:
-    N = 100000 if ck.thorough() else 5000
+    N = 60000 if ck.thorough() else 5000
     for i in range(N):
         m = i % 8
         if m in (0, 1, 2): cases.append(gen_splay(rng, True, 4 + rng.below(40)))
